@@ -920,6 +920,10 @@ func (s *Service) processCreateIteratorRequest(conn net.Conn) {
 	// Stream iterator to connection.
 	if err := encoder.EncodeIterator(itr); err != nil {
 		s.Logger.Error("Error encoding CreateIterator iterator", zap.Error(err))
+		// The stream has no end marker: closing the connection here would look like
+		// the end of the data to the reader. A frame that cannot be decoded makes its
+		// iterator fail instead of returning the points sent so far as the whole result.
+		conn.Write([]byte{0, 0, 0, 1, 0xff})
 		return
 	}
 
